@@ -477,6 +477,69 @@ def rule_f_fragcache(chk, prog):
         chk.broke("no cached fragment block tag store found")
 
 
+def rule_j_logged(chk, prog):
+    """K11-logged: the block writer truncates the image behind the last block it has on record when it drops a duplicate
+    run, so its record must be complete: in the function that writes a data block, every path that reaches the write
+    (write_at) has put the block on record before (a call that appends to the writer's table, directly or in a helper).
+    A kind of block that is written but left off the record is cut off by the next truncation while the tables keep
+    pointing at it."""
+    from .c13 import _e7_walk
+    impls = prog.slot_impls(("struct.sqfs_block_writer_t", "write_data_block"))
+    n = 0
+
+    class _S:
+        pass
+
+    def records(c, f, depth=0):
+        nm = norm_callee(c.callee)
+        if nm == "array_append":
+            return True
+        if c.callee and depth < 3:
+            t = prog.fn(c.callee, f.unit)
+            if t is not None and not t.decl and t.unit is f.unit:
+                t.build()
+                return any(records(x, t, depth + 1) for x in t.calls())
+        return False
+    for f in sorted(impls, key=lambda x: x.qname):
+        if f.decl:
+            continue
+        f.build()
+        writes = [c for c in f.calls() if slot_call(c) == ("struct.sqfs_file_t", "write_at")]
+        if not writes:
+            continue
+        n += 1
+        chk.analysed(f)
+        inst = "%s:record-before-write" % f.name
+        st = _S()
+        st.bb = f.blocks[0]
+        bad = None
+        for (v, r, path) in _e7_walk(prog, f, st, None, [], set()):
+            for w in writes:
+                if w.bb not in path:
+                    continue
+                cut = path.index(w.bb)
+                rec = False
+                for k in range(cut + 1):
+                    for i in path[k].insts:
+                        if k == cut and i.pos >= w.pos:
+                            break
+                        if i.op == "call" and records(i, f):
+                            rec = True
+                if not rec:
+                    bad = w
+            if bad is not None:
+                break
+        if bad is None:
+            chk.ok("K11-logged", inst, writes[0], "every block that is written was put on the writer's record first")
+        else:
+            chk.violation("K11-logged", inst, bad, "a block can be written to the image without being put on the block writer's "
+                          "record: the truncation after a duplicate run only knows the recorded blocks and cuts the unrecorded "
+                          "one off while the fragment table keeps pointing at it")
+    if n == 0:
+        chk.broke("no implementation of sqfs_block_writer_t.write_data_block writes to the file")
+    return n
+
+
 def rule_h_equals_reports(chk, prog):
     """the fragment comparison callback returns bool and cannot hand an error to its caller: whenever reading the candidate
     back fails, the failure is recorded in the processor's error field before 'not equal' is answered -- otherwise an
@@ -504,16 +567,24 @@ def rule_h_equals_reports(chk, prog):
         if not edges:
             chk.violation("K5-frag-report", inst, c, "the result of %s is not tested against zero" % norm_callee(c.callee))
             continue
-        for (succ, fact) in edges:
-            seen, stack = set(), [succ]
-            while stack and bad is None:
-                b = stack.pop()
-                if b in seen or b in rec:
-                    continue
-                seen.add(b)
-                if b in rets or any(any(i.op in ("phi", "ret") for i in s_.insts) and s_ in rets for s_ in b.succs if False):
-                    bad = b
-                stack.extend(b.succs)
+        # every path from the call, taken under the assumption that it failed (branches on the result against zero are
+        # followed on the failing side; tests against particular error codes can go either way), records the error
+        from .c13 import _e7_walk
+
+        class _S:
+            pass
+        st = _S()
+        st.bb = c.bb
+        for (v, r, path) in _e7_walk(prog, f, st, None, [], set(), {id(c)}):
+            recorded = False
+            for k, b in enumerate(path):
+                insts = b.insts[c.pos + 1:] if (k == 0 and b is c.bb) else b.insts
+                if any(i.op == "store" and _fld(i.ops[1]) == "fblk_lookup_error" and
+                       not (i.ops[0].is_const and i.ops[0].is_int and i.ops[0].sval == 0) for i in insts):
+                    recorded = True
+            if not recorded:
+                bad = r.bb
+                break
         if bad is None:
             chk.ok("K5-frag-report", inst, c, "every failure of the read-back is recorded in fblk_lookup_error before the callback returns")
         else:
@@ -635,6 +706,8 @@ def run(chk):
     rule_g_truncate(chk, prog)
     rule_h_equals_reports(chk, prog)
     rule_i_every_block(chk, prog)
+    rule_j_logged(chk, prog)
+    chk.floor("K11-logged", 1)
     chk.floor("K9-fragcache", 1)
     chk.floor("K12-compare", 1)
     chk.floor("K13-compare", 2)
